@@ -705,6 +705,18 @@ func c17Forward(s *source, e *emitter, rel, goName, leanName string) {
 				}
 			case *ast.RangeStmt:
 				walk(x.Body)
+			case *ast.SwitchStmt:
+				if x.Init != nil {
+					walk(x.Init)
+				}
+				if x.Tag != nil {
+					doExpr(x.Tag)
+				}
+				for _, c := range x.Body.List {
+					for _, y := range c.(*ast.CaseClause).Body {
+						walk(y)
+					}
+				}
 			case *ast.ExprStmt:
 				if c, ok := x.X.(*ast.CallExpr); ok {
 					doCall(c)
@@ -740,6 +752,40 @@ func c17Forward(s *source, e *emitter, rel, goName, leanName string) {
 		e.printf("\n  (%s, [%s])", leanString(c.callee), strings.Join(as, ", "))
 	}
 	e.printf("]\n\n")
+}
+
+// c17StringKeyTable: every `"key": value` pair (string-literal key) inside the initialiser of the package variable `name`,
+// however deeply nested (the registry of configcenter is `&unmarshalerRegistry{unmarshalers: map[string]LoaderFn{...}}`).
+func c17StringKeyTable(s *source, e *emitter, rel, name, leanName string) {
+	f := s.file(rel)
+	var items []string
+	found := false
+	if f != nil {
+		ast.Inspect(f, func(n ast.Node) bool {
+			vs, ok := n.(*ast.ValueSpec)
+			if !ok {
+				return true
+			}
+			for i, id := range vs.Names {
+				if id.Name == name && i < len(vs.Values) {
+					found = true
+					ast.Inspect(vs.Values[i], func(m ast.Node) bool {
+						if kv, ok := m.(*ast.KeyValueExpr); ok {
+							if bl, ok := kv.Key.(*ast.BasicLit); ok && bl.Kind == token.STRING {
+								items = append(items, s.src(kv.Key)+" -> "+s.src(kv.Value))
+							}
+						}
+						return true
+					})
+				}
+			}
+			return true
+		})
+	}
+	if !found {
+		e.errors = append(e.errors, "variable "+name+" not found in "+rel)
+	}
+	e.stringList(leanName, "string-keyed entries of `"+name+"` in "+rel, items)
 }
 
 func init() {
@@ -855,6 +901,17 @@ func init() {
 		c17Detail(s, e, cf, "mergeFields", "cMergeFields")
 		c17Detail(s, e, cf, "buildAnonymousFieldInfo", "cBuildAnonymousFieldInfo")
 		c17SwitchCases(s, e, cf, "buildAnonymousFieldInfo", "anonInfoCases")
+		// round 5d: the config center, a CALLER that selects the loader from a Type string
+		const ccf = "core/configcenter/configurator.go"
+		c17Forward(s, e, ccf, "configCenter.genValue", "fwdCcGenValue")
+		c17Forward(s, e, ccf, "configCenter.loadConfig", "fwdCcLoadConfig")
+		c17Forward(s, e, ccf, "NewConfigCenter", "fwdCcNew")
+		c17Detail(s, e, ccf, "configCenter.genValue", "ccGenValue")
+		c17Detail(s, e, ccf, "configCenter.GetConfig", "ccGetConfig")
+		c17CondsSw(s, e, ccf, "configCenter.genValue", "ccGenCond")
+		c17CondsSw(s, e, ccf, "configCenter.GetConfig", "ccGetCond")
+		c17StringKeyTable(s, e, "core/configcenter/unmarshaler.go", "registry", "ccRegistry")
+		c17Detail(s, e, "core/configcenter/unmarshaler.go", "Unmarshaler", "ccUnmarshaler")
 		c17ByteFlow(s, e, ef, "encodeToJSON", "encodeBufFlow")
 		c17Forward(s, e, ef, "YamlToJson", "fwdEYamlToJson")
 		c17Forward(s, e, ef, "TomlToJson", "fwdETomlToJson")
